@@ -276,3 +276,92 @@ func c14WireRequest(r *Result, d *drv.Driver, ca *tlsm.CA, seed int64) {
 		}
 	}
 }
+
+// c07WireDV: the built-in Discover Versions handler as part of the message model (KmipModel/WireDV.lean `dvHandler`, driver
+// `wiredv`): a Server with no handlers of the application's and SupportedVersions = nil (the default list) / one version / two
+// majors / a list with a repetition answers Discover Versions requests - empty offer, offers with supported, unsupported and
+// repeated versions, alone and in a batch with an operation nobody handles - and the bytes it writes are the encoding of the
+// Response the model builds.
+func c07WireDV(r *Result, d *drv.Driver) {
+	v := func(a, b int32) kmip.ProtocolVersion { return kmip.ProtocolVersion{Major: a, Minor: b} }
+	sups := [][]kmip.ProtocolVersion{nil, {v(1, 4)}, {v(2, 0), v(1, 4)}, {v(1, 2), v(1, 4), v(1, 2)}, {v(0, 0), v(1, 0)}}
+	offers := [][]kmip.ProtocolVersion{nil, {v(1, 4)}, {v(9, 9)}, {v(1, 2), v(9, 9), v(1, 4)}, {v(1, 4), v(1, 4)}, {v(2, 0), v(1, 4), v(1, 3), v(1, 2), v(1, 1), v(1, 0)}, {v(0, 0)}}
+	showSup := func(vs []kmip.ProtocolVersion) string {
+		if len(vs) == 0 {
+			return "-"
+		}
+		var p []string
+		for _, x := range vs {
+			p = append(p, fmt.Sprintf("%d.%d", x.Major, x.Minor))
+		}
+		return strings.Join(p, ",")
+	}
+	for _, sup := range sups {
+		for oi, offer := range offers {
+			for _, mixed := range []bool{false, true} {
+				s := &kmip.Server{SupportedVersions: append([]kmip.ProtocolVersion(nil), sup...)}
+				req := &kmip.Request{Header: kmip.RequestHeader{Version: v(1, 4), BatchCount: 1},
+					BatchItems: []kmip.RequestBatchItem{{Operation: kmip.OPERATION_DISCOVER_VERSIONS, RequestPayload: kmip.DiscoverVersionsRequest{ProtocolVersions: offer}}}}
+				if oi%2 == 1 {
+					req.BatchItems[0].UniqueID = []byte{7, 7}
+				}
+				if mixed {
+					req.BatchItems = append(req.BatchItems, kmip.RequestBatchItem{Operation: kmip.OPERATION_ACTIVATE, RequestPayload: kmip.ActivateRequest{UniqueIdentifier: "a"}})
+					req.Header.BatchCount = 2
+				}
+				var rb bytes.Buffer
+				if err := kmip.NewEncoder(&rb).Encode(req); err != nil {
+					r.find(Finding{Kind: "disagreement", What: "cannot encode the Discover Versions wire request", Actual: err.Error()})
+					continue
+				}
+				effective := sup
+				if len(effective) == 0 {
+					effective = kmip.DefaultSupportedVersions
+				}
+				key := fmt.Sprintf("wire response of a Server with SupportedVersions %s to Discover Versions offering %s (batch with an unhandled Activate: %v)", showSup(sup), showSup(offer), mixed)
+				crumb("C07 " + key)
+				r.eval(key, true)
+				sc, cc := rec.Pipe()
+				l := rec.NewListener()
+				l.Push(rec.AcceptStep{Conn: rec.NewConn(sc, 1)})
+				init := make(chan struct{})
+				ret := make(chan error, 1)
+				go func() { ret <- s.Serve(l, init) }()
+				<-init
+				_ = cc.SetDeadline(time.Now().Add(3 * time.Second))
+				_, werr := cc.Write(rb.Bytes())
+				real := "none"
+				var clock uint64
+				hdr := make([]byte, 8)
+				if _, err := io.ReadFull(cc, hdr); werr == nil && err == nil {
+					body := make([]byte, binary.BigEndian.Uint32(hdr[4:]))
+					if _, err := io.ReadFull(cc, body); err == nil {
+						resp := append(hdr, body...)
+						real = "ok " + hx(resp)
+						for _, nd := range mut.All(mut.Parse(resp)) {
+							if nd.Tag == 0x420092 && nd.Len == 8 {
+								clock = binary.BigEndian.Uint64(resp[nd.Off+8:])
+								break
+							}
+						}
+					}
+				}
+				cc.Close()
+				ctx, cancel := context.WithTimeout(context.Background(), 5*time.Second)
+				_ = s.Shutdown(ctx)
+				cancel()
+				<-ret
+				line := fmt.Sprintf("wiredv %d %s %s", clock, showSup(effective), hx(rb.Bytes()))
+				model, err := d.Ask(line)
+				if err != nil {
+					r.find(Finding{Kind: "disagreement", What: "driver failure", Input: err.Error()})
+					return
+				}
+				r.Stats["wire-discover-versions-comparisons"]++
+				if model != real {
+					r.find(Finding{Kind: "disagreement", What: "the message model's Discover Versions response (KmipModel/WireDV.lean) differs from the bytes the real Server wrote", Input: map[string]string{"op": line, "scenario": key}, Expect: model, Actual: real})
+				}
+			}
+		}
+	}
+}
